@@ -19,7 +19,8 @@ import sys
 import time
 
 ROOT = os.path.dirname(os.path.dirname(os.path.abspath(__file__)))
-BUILD = os.path.join(ROOT, ".build")
+BUILD = os.environ.get("VERIF_BUILD") or os.path.join(ROOT, ".build")
+REPO = os.environ.get("VERIF_REPO") or "/repo"
 SPEC = os.path.join(ROOT, "spec")
 EVID = os.path.join(ROOT, "evidence")
 REPLAYS = os.path.join(ROOT, "evidence", "replays")
@@ -200,6 +201,8 @@ def run_tlc(module, cfg_path=None, cfg=None, workers=None, simulate=None, depth=
                 r.violated = m.group(1)
             if line.startswith("Error: Temporal properties were violated"):
                 r.violated = r.violated or "temporal"
+            if line.startswith("Error: Postcondition"):
+                r.violated = r.violated or "postcondition"
             if line.startswith("Error:") and r.violated is None and r.error is None and "behavior up to" not in line:
                 r.error = line
             m = re.match(r"^<(\w+) line \d+, col \d+ to line \d+, col \d+ of module (\w+)>: (\d+):(\d+)", line)
@@ -372,3 +375,40 @@ class Check:
         print("OK property=%s tier=%s seed=%d states=%d traces=%d wall=%.0fs" %
               (self.prop, self.tier, self.seed, self.states, self.traces, wall), flush=True)
         sys.exit(0)
+
+
+# ------------------------------------------------------ trace validation ----
+def validate_trace(module, constants, events, invariants=(), spec="TraceSpec", postcondition="TraceAccepted",
+                   timeout=900, dfs=False, name=None):
+    """events: list of dicts (one trace line each; runs separated by {"op": "Reset"} or whatever the trace
+    spec uses). Returns (accepted, rejected_at (1-based line) or None, TlcResult).
+    The trace spec must read "trace.ndjson" and define the POSTCONDITION printing
+    <<"TRACE-REJECTED-AT", d, json>> on rejection."""
+    nd = "\n".join(json.dumps(e, sort_keys=True) for e in events) + "\n"
+    r = run_tlc(module, cfg=dict(spec=spec, constants=constants, invariants=list(invariants), postcondition=postcondition),
+                workers=1, timeout=timeout, files={"trace.ndjson": nd}, name=name or module, dfs=dfs)
+    rejected_at = None
+    for line in r.prints:
+        m = re.match(r'^<<"TRACE-REJECTED-AT", (\d+),', line)
+        if m:
+            rejected_at = int(m.group(1))
+    if rejected_at is not None:
+        return False, rejected_at, r
+    if r.violated:  # an invariant of the spec failed on a state reached by the recorded trace
+        return False, max(r.depth, 1), r
+    if not r.ok:
+        raise MachineryError("trace validation of %s did not run: %s\n%s" % (module, r.error, r.out[-3000:]))
+    return True, None, r
+
+
+def split_runs(events, sep_key="op", sep_val="Reset"):
+    """-> list of (first_line_1based, [events]) for the runs between separators"""
+    runs, cur, start = [], [], 1
+    for i, e in enumerate(events, 1):
+        if e.get(sep_key) == sep_val:
+            runs.append((start, cur))
+            cur, start = [], i + 1
+        else:
+            cur.append(e)
+    runs.append((start, cur))
+    return [r for r in runs if r[1]]
